@@ -6,7 +6,7 @@ namespace Sem
 
 theorem sane_of {p : Program} (hs : p.saneNames = true) {j : Nat} {f : File} (hf : p[j]? = some f)
     {n : Bytes} {c : Cat} (hd : Declares f n c) :
-    splitLastDot n = none ∧ specBase n = none ∧ isContainerName n = false ∧ n ≠ [] := by
+    specBase n = none ∧ isContainerName n = false ∧ n ≠ [] := by
   have hfm : f ∈ p := List.mem_of_getElem? hf
   have h1 : f.saneNames = true := by
     unfold Program.saneNames at hs
@@ -18,7 +18,7 @@ theorem sane_of {p : Program} (hs : p.saneNames = true) {j : Nat} {f : File} (hf
   have := List.all_eq_true.mp h1 n hn
   simp only [Bool.and_eq_true, Option.isNone_iff_eq_none, Bool.not_eq_eq_eq_not, Bool.not_true,
     List.isEmpty_eq_false_iff] at this
-  exact ⟨this.1.1.2, this.1.2, this.2, this.1.1.1⟩
+  exact ⟨this.1.2, this.2, this.1.1⟩
 
 /-- `vals` are the value names of enum `e`. -/
 def EnumVals (p : Program) (e : Nat × Bytes) (vals : List Bytes) : Prop :=
@@ -82,13 +82,14 @@ theorem declares_enum {f : File} {n : Bytes} (h : Declares f n .enum) : ∃ e, e
 theorem kw_container : isContainerName kwList = true ∧ isContainerName kwSet = true ∧ isContainerName kwMap = true := by
   decide
 
-/-- getEnum finds only what `EnumDen` allows (sane names). -/
+/-- getEnum finds only what `EnumDen` allows (no definition named like a type keyword). -/
 theorem getEnum_sound {p : Program} (hs : p.saneNames = true) {views : Nat → Option FileView}
-    (hv : AllViews p views) : ∀ (fuel j : Nat) (name : Bytes) (vals : List Bytes) (idx : Int),
-    getEnum views fuel j name = .ok (some vals, idx) →
+    (hv : AllViews p views) : ∀ (fuel : Nat) (seen : List (Nat × Bytes)) (j : Nat) (name : Bytes)
+      (vals : List Bytes) (idx : Int),
+    getEnum views fuel seen j name = .ok (some vals, idx) →
       ∃ e, EnumDen p j name e idx ∧ EnumVals p e vals
-  | 0, j, name, vals, idx => by simp [getEnum]
-  | fuel + 1, j, name, vals, idx => by
+  | 0, seen, j, name, vals, idx => by simp [getEnum]
+  | fuel + 1, seen, j, name, vals, idx => by
     intro h
     simp only [getEnum] at h
     cases hvj : views j with
@@ -131,65 +132,63 @@ theorem getEnum_sound {p : Program} (hs : p.saneNames = true) {views : Nat → O
               rw [ht] at h
               simp only at h
               obtain ⟨td, htdm, hal, hrn, href, t, hden⟩ := htd name root ht
-              -- the fall-back `getEnum(ast, x.Type.Name)`
-              have fallback : getEnum views fuel j root.rootName = .ok (some vals, idx) →
-                  root.ref = none → ∃ e, EnumDen p j name e idx ∧ EnumVals p e vals := by
-                intro hr hrefn
-                obtain ⟨e, hed, hev⟩ := getEnum_sound hs hv fuel j root.rootName vals idx hr
-                obtain ⟨g', c', hg', hd'⟩ := enumDen_declares hed
-                rw [hg] at hg'; simp only [Option.some.injEq] at hg'; subst hg'
-                obtain ⟨s1, s2, s3, _⟩ := sane_of hs hg hd'
-                rw [hrn] at s1 s2 s3 hed
-                cases hty : td.type with
-                | name n =>
-                  rw [hty] at s1 s2 hed
-                  simp only [TypeExpr.rootName] at s1 s2 hed
-                  refine ⟨e, ?_, hev⟩
-                  have := EnumDen.tdLoc hg htdm hty s2 s1 hed
-                  rw [hal] at this
-                  exact this
-                | list x => rw [hty] at s3; simp only [TypeExpr.rootName, kw_container.1] at s3; cases s3
-                | set x => rw [hty] at s3; simp only [TypeExpr.rootName, kw_container.2.1] at s3; cases s3
-                | map x y => rw [hty] at s3; simp only [TypeExpr.rootName, kw_container.2.2] at s3; cases s3
-              cases hr : root.ref with
-              | none => rw [hr] at h; exact fallback h hr
-              | some r =>
-                rw [hr] at h
-                simp only at h
-                obtain ⟨n, f', a, j', c', e1, e2, e3, e4, e5⟩ := (href r.index r.name).mp (by rw [hr])
-                rw [hg] at e3; simp only [Option.some.injEq] at e3; subst e3
-                have hfirst := e5
-                obtain ⟨inc, g2, r1, r2, r3, r4, r5, r6, r7⟩ := e5
-                have hix : v.incs[r.index]? = some j' := by
-                  rw [hincs, List.getElem?_map, r1]; simp [r2]
-                rw [hix] at h
-                simp only at h
-                cases hsub : getEnum views fuel j' r.name with
-                | error err => rw [hsub] at h; simp at h
-                | ok res =>
-                  obtain ⟨en, i2⟩ := res
-                  rw [hsub] at h
-                  cases en with
-                  | some vs =>
-                    simp only [Except.ok.injEq, Prod.mk.injEq, Option.some.injEq] at h
-                    obtain ⟨rfl, rfl⟩ := h
-                    obtain ⟨e, hed, hev⟩ := getEnum_sound hs hv fuel j' r.name vs i2 hsub
+              by_cases hseen : (j, name) ∈ seen
+              · rw [if_pos hseen] at h
+                simp only [Except.ok.injEq, Prod.mk.injEq, reduceCtorEq, false_and] at h
+              · rw [if_neg hseen] at h
+                cases hr : root.ref with
+                | none =>
+                  rw [hr] at h
+                  simp only at h
+                  obtain ⟨e, hed, hev⟩ := getEnum_sound hs hv fuel _ j root.rootName vals idx h
+                  obtain ⟨g', c', hg', hd'⟩ := enumDen_declares hed
+                  rw [hg] at hg'; simp only [Option.some.injEq] at hg'; subst hg'
+                  obtain ⟨s2, s3, _⟩ := sane_of hs hg hd'
+                  rw [hrn] at s2 s3 hed
+                  cases hty : td.type with
+                  | name n =>
+                    rw [hty] at s2 hed hden
+                    simp only [TypeExpr.rootName] at s2 hed
+                    have hsp : splitLastDot n = none := by
+                      rcases den_ty_name_inv hden with ⟨c2, q1, _⟩ | ⟨_, q2, _⟩ | ⟨f2, a, b, k, j2, c2, _, q2, q3, q4, _⟩
+                      · rw [s2] at q1; cases q1
+                      · exact q2
+                      · exfalso
+                        have := (href k b).mpr (by rw [hty]; exact ⟨n, f2, a, j2, c2, rfl, s2, q3, q2, q4⟩)
+                        rw [hr] at this; cases this
                     refine ⟨e, ?_, hev⟩
-                    have := EnumDen.tdQual hg htdm e1 e2 e4 hfirst hed
+                    have := EnumDen.tdLoc hg htdm hty s2 hsp hed
                     rw [hal] at this
                     exact this
-                  | none =>
-                    simp only at h
-                    -- the dotted written name is looked up locally: nothing is declared under it
-                    exfalso
-                    obtain ⟨e, hed, _⟩ := getEnum_sound hs hv fuel j root.rootName vals idx h
-                    obtain ⟨g', c'', hg', hd'⟩ := enumDen_declares hed
-                    rw [hg] at hg'; simp only [Option.some.injEq] at hg'; subst hg'
-                    have := (sane_of hs hg hd').1
-                    rw [hrn, e1] at this
-                    simp only [TypeExpr.rootName] at this
-                    rw [e4] at this
-                    cases this
+                  | list x => rw [hty] at s3; simp only [TypeExpr.rootName, kw_container.1] at s3; cases s3
+                  | set x => rw [hty] at s3; simp only [TypeExpr.rootName, kw_container.2.1] at s3; cases s3
+                  | map x y => rw [hty] at s3; simp only [TypeExpr.rootName, kw_container.2.2] at s3; cases s3
+                | some r =>
+                  rw [hr] at h
+                  simp only at h
+                  obtain ⟨n, f', a, j', c', e1, e2, e3, e4, e5⟩ := (href r.index r.name).mp (by rw [hr])
+                  rw [hg] at e3; simp only [Option.some.injEq] at e3; subst e3
+                  have hfirst := e5
+                  obtain ⟨inc, g2, r1, r2, r3, r4, r5, r6, r7⟩ := e5
+                  have hix : v.incs[r.index]? = some j' := by
+                    rw [hincs, List.getElem?_map, r1]; simp [r2]
+                  rw [hix] at h
+                  simp only at h
+                  cases hsub : getEnum views fuel ((j, name) :: seen) j' r.name with
+                  | error err => rw [hsub] at h; simp at h
+                  | ok res =>
+                    obtain ⟨en, i2⟩ := res
+                    rw [hsub] at h
+                    cases en with
+                    | some vs =>
+                      simp only [Except.ok.injEq, Prod.mk.injEq, Option.some.injEq] at h
+                      obtain ⟨rfl, rfl⟩ := h
+                      obtain ⟨e, hed, hev⟩ := getEnum_sound hs hv fuel _ j' r.name vs i2 hsub
+                      refine ⟨e, ?_, hev⟩
+                      have := EnumDen.tdQual hg htdm e1 e2 e4 hfirst hed
+                      rw [hal] at this
+                      exact this
+                    | none => simp only [Except.ok.injEq, Prod.mk.injEq, reduceCtorEq, false_and] at h
           · rw [if_neg hct] at h
             simp only [Except.ok.injEq, Prod.mk.injEq, reduceCtorEq, false_and] at h
 
@@ -199,14 +198,118 @@ theorem not_qual_of_nodot {p : Program} {j : Nat} {n : Bytes} (h : splitLastDot 
   simp only [TypeExpr.name.injEq] at e; subst e
   rw [h] at h4; cases h4
 
-/-- getEnum finds everything `EnumDen` allows, whenever it returns at all. -/
-theorem getEnum_complete {p : Program} {views : Nat → Option FileView} (hv : AllViews p views) :
-    ∀ {j name e idx}, EnumDen p j name e idx → ∀ fuel r, getEnum views fuel j name = .ok r →
-      ∃ vals, r = (some vals, idx) ∧ EnumVals p e vals := by
-  intro j name e idx h
+/-- `EnumDen` with the number of typedefs followed. -/
+inductive EnumDenH (p : Program) : Nat → Bytes → Nat × Bytes → Int → Nat → Prop
+  | enum {j f b} : p[j]? = some f → Declares f b .enum → EnumDenH p j b (j, b) (-1) 0
+  | tdLoc {j f td n e idx h} : p[j]? = some f → td ∈ f.typedefs → td.type = .name n →
+      specBase n = none → splitLastDot n = none → EnumDenH p j n e idx h →
+      EnumDenH p j td.alias e idx (h + 1)
+  | tdQual {j f td n a b} {k : Nat} {j' c e idx h} : p[j]? = some f → td ∈ f.typedefs → td.type = .name n →
+      specBase n = none → splitLastDot n = some (a, b) →
+      FirstInc p f Cat.isTypeLikeSpec a b k j' c → EnumDenH p j' b e idx h →
+      EnumDenH p j td.alias e (k : Int) (h + 1)
+
+theorem enumDen_height {p : Program} {j : Nat} {b : Bytes} {e : Nat × Bytes} {idx : Int}
+    (h : EnumDen p j b e idx) : ∃ n, EnumDenH p j b e idx n := by
   induction h with
+  | enum h1 h2 => exact ⟨0, .enum h1 h2⟩
+  | tdLoc h1 h2 h3 h4 h5 _ ih => obtain ⟨n, hn⟩ := ih; exact ⟨n + 1, .tdLoc h1 h2 h3 h4 h5 hn⟩
+  | tdQual h1 h2 h3 h4 h5 h6 _ ih => obtain ⟨n, hn⟩ := ih; exact ⟨n + 1, .tdQual h1 h2 h3 h4 h5 h6 hn⟩
+
+theorem enumDenH_inv {p : Program} {j : Nat} {b : Bytes} {e : Nat × Bytes} {idx : Int} {h : Nat}
+    (hd : EnumDenH p j b e idx h) :
+    (∃ f, p[j]? = some f ∧ Declares f b .enum ∧ h = 0) ∨
+    (∃ f td n h0, p[j]? = some f ∧ td ∈ f.typedefs ∧ td.alias = b ∧ td.type = .name n ∧
+        splitLastDot n = none ∧ EnumDenH p j n e idx h0 ∧ h = h0 + 1) ∨
+    (∃ f td n a b' k j' c idx0 h0, p[j]? = some f ∧ td ∈ f.typedefs ∧ td.alias = b ∧ td.type = .name n ∧
+        splitLastDot n = some (a, b') ∧ FirstInc p f Cat.isTypeLikeSpec a b' k j' c ∧
+        EnumDenH p j' b' e idx0 h0 ∧ h = h0 + 1) := by
+  cases hd with
+  | enum h1 h2 => exact Or.inl ⟨_, h1, h2, rfl⟩
+  | tdLoc h1 h2 h3 _ h5 h6 => exact Or.inr (Or.inl ⟨_, _, _, _, h1, h2, rfl, h3, h5, h6, rfl⟩)
+  | tdQual h1 h2 h3 _ h5 h6 h7 => exact Or.inr (Or.inr ⟨_, _, _, _, _, _, _, _, _, _, h1, h2, rfl, h3, h5, h6, h7, rfl⟩)
+
+/-- the number of typedefs between a name and its enum is determined by the name -/
+theorem enumDenH_fun {p : Program} {views : Nat → Option FileView} (hv : AllViews p views) :
+    ∀ {j b e idx h}, EnumDenH p j b e idx h → (∃ v, views j = some v) →
+      ∀ {e' idx' h'}, EnumDenH p j b e' idx' h' → h = h' := by
+  intro j b e idx h hd
+  induction hd with
   | @enum j f b h1 h2 =>
-    intro fuel r hr
+    intro ⟨v, hvj⟩ e' idx' h' hd'
+    obtain ⟨g, hg, hnd, _⟩ := (hv j v hvj).ex
+    rw [h1] at hg; simp only [Option.some.injEq] at hg; subst hg
+    rcases enumDenH_inv hd' with ⟨_, _, _, q⟩ | ⟨f', td, _, _, q1, q2, q3, _⟩ | ⟨f', td, _, _, _, _, _, _, _, _, q1, q2, q3, _⟩
+    · exact q.symm
+    · rw [h1] at q1; simp only [Option.some.injEq] at q1; subst q1
+      have := declares_unique hnd h2 (by rw [← q3]; exact Declares.typedef q2)
+      cases this
+    · rw [h1] at q1; simp only [Option.some.injEq] at q1; subst q1
+      have := declares_unique hnd h2 (by rw [← q3]; exact Declares.typedef q2)
+      cases this
+  | @tdLoc j f td n e idx h h1 h2 h3 _ h5 _ ih =>
+    intro ⟨v, hvj⟩ e' idx' h' hd'
+    obtain ⟨g, hg, hnd, _⟩ := (hv j v hvj).ex
+    rw [h1] at hg; simp only [Option.some.injEq] at hg; subst hg
+    rcases enumDenH_inv hd' with ⟨f', q1, q2, _⟩ | ⟨f', td', n', h0, q1, q2, q3, q4, _, q6, q7⟩ |
+        ⟨f', td', n', a, b', k, j', c, idx0, h0, q1, q2, q3, q4, q5, _⟩
+    · rw [h1] at q1; simp only [Option.some.injEq] at q1; subst q1
+      have := declares_unique hnd q2 (Declares.typedef h2)
+      cases this
+    · rw [h1] at q1; simp only [Option.some.injEq] at q1; subst q1
+      have : td' = td := findTypedef_unique hnd q2 h2 q3
+      subst this
+      rw [h3] at q4; simp only [TypeExpr.name.injEq] at q4; subst q4
+      rw [q7, ih ⟨v, hvj⟩ q6]
+    · rw [h1] at q1; simp only [Option.some.injEq] at q1; subst q1
+      have : td' = td := findTypedef_unique hnd q2 h2 q3
+      subst this
+      rw [h3] at q4; simp only [TypeExpr.name.injEq] at q4; subst q4
+      rw [h5] at q5; cases q5
+  | @tdQual j f td n a b k j' c e idx h h1 h2 h3 _ h5 h6 _ ih =>
+    intro ⟨v, hvj⟩ e' idx' h' hd'
+    obtain ⟨g, hg, hnd, _, _, _, _, _, hcl⟩ := (hv j v hvj).ex
+    rw [h1] at hg; simp only [Option.some.injEq] at hg; subst hg
+    rcases enumDenH_inv hd' with ⟨f', q1, q2, _⟩ | ⟨f', td', n', h0, q1, q2, q3, q4, q5, _⟩ |
+        ⟨f', td', n', a', b', k', j'', c', idx0, h0, q1, q2, q3, q4, q5, q6, q7, q8⟩
+    · rw [h1] at q1; simp only [Option.some.injEq] at q1; subst q1
+      have := declares_unique hnd q2 (Declares.typedef h2)
+      cases this
+    · rw [h1] at q1; simp only [Option.some.injEq] at q1; subst q1
+      have : td' = td := findTypedef_unique hnd q2 h2 q3
+      subst this
+      rw [h3] at q4; simp only [TypeExpr.name.injEq] at q4; subst q4
+      rw [h5] at q5; cases q5
+    · rw [h1] at q1; simp only [Option.some.injEq] at q1; subst q1
+      have : td' = td := findTypedef_unique hnd q2 h2 q3
+      subst this
+      rw [h3] at q4; simp only [TypeExpr.name.injEq] at q4; subst q4
+      rw [h5] at q5; simp only [Option.some.injEq, Prod.mk.injEq] at q5
+      obtain ⟨rfl, rfl⟩ := q5
+      have hN : ∀ (k : Nat) (inc : Include) (g : File), f.includes[k]? = some inc → p[inc.target]? = some g →
+          g.names.Nodup := by
+        intro k inc g hk hgk
+        obtain ⟨v', hv'⟩ := hcl inc (List.mem_of_getElem? hk)
+        obtain ⟨g', hg', hnd', _⟩ := (hv _ _ hv').ex
+        rw [hgk] at hg'; simp only [Option.some.injEq] at hg'; subst hg'
+        exact hnd'
+      obtain ⟨rfl, rfl, rfl⟩ := firstInc_unique' hN h6 q6
+      obtain ⟨inc, g2, r1, r2, _⟩ := h6
+      subst r2
+      rw [q8, ih (hcl inc (List.mem_of_getElem? r1)) q7]
+
+/-- getEnum finds everything `EnumDen` allows, whenever it returns at all: the keys in the visited
+set are the typedefs already followed, which lie strictly further from the enum. -/
+theorem getEnum_complete_h {p : Program} {views : Nat → Option FileView} (hv : AllViews p views) :
+    ∀ {j name e idx h}, EnumDenH p j name e idx h → (∃ v, views j = some v) →
+      ∀ fuel (seen : List (Nat × Bytes)) r,
+      (∀ k, k ∈ seen → ∀ e' idx' h', EnumDenH p k.1 k.2 e' idx' h' → h < h') →
+      getEnum views fuel seen j name = .ok r →
+      ∃ vals, r = (some vals, idx) ∧ EnumVals p e vals := by
+  intro j name e idx h hd
+  induction hd with
+  | @enum j f b h1 h2 =>
+    intro _ fuel seen r _ hr
     cases fuel with
     | zero => simp [getEnum] at hr
     | succ fuel =>
@@ -233,8 +336,9 @@ theorem getEnum_complete {p : Program} {views : Nat → Option FileView} (hv : A
             simp only [Option.map_some, Option.some.injEq] at he
             obtain ⟨hm, hnm⟩ := findEnum_some hfe
             exact ⟨vs, hr.symm, f, en, h1, hm, hnm, he.symm⟩
-  | @tdLoc j f td n e idx h1 h2 h3 h4 h5 _ ih =>
-    intro fuel r hr
+  | @tdLoc j f td n e idx h h1 h2 h3 h4 h5 hsub ih =>
+    intro hview fuel seen r hseen hr
+    have hself := EnumDenH.tdLoc h1 h2 h3 h4 h5 hsub
     cases fuel with
     | zero => simp [getEnum] at hr
     | succ fuel =>
@@ -256,6 +360,11 @@ theorem getEnum_complete {p : Program} {views : Nat → Option FileView} (hv : A
           obtain ⟨td', htdm, hal, hrn, href, _⟩ := htd td.alias root ht
           have : td' = td := findTypedef_unique hnd htdm h2 hal
           subst this
+          have hns : (j, td'.alias) ∉ seen := by
+            intro hm
+            have := hseen _ hm _ _ _ hself
+            omega
+          rw [if_neg hns] at hr
           have hrefn : root.ref = none := by
             cases hrr : root.ref with
             | none => rfl
@@ -266,9 +375,16 @@ theorem getEnum_complete {p : Program} {views : Nat → Option FileView} (hv : A
           rw [hrefn] at hr
           simp only at hr
           rw [hrn, h3] at hr
-          exact ih fuel r hr
-  | @tdQual j f td n a b k j' c e idx h1 h2 h3 h4 h5 h6 _ ih =>
-    intro fuel r hr
+          refine ih hview fuel _ r ?_ hr
+          intro k hk e' idx' h' hd'
+          rcases List.mem_cons.mp hk with rfl | hk
+          · have := enumDenH_fun hv hself hview hd'
+            omega
+          · have := hseen k hk e' idx' h' hd'
+            omega
+  | @tdQual j f td n a b k j' c e idx h h1 h2 h3 h4 h5 h6 hsub ih =>
+    intro hview fuel seen r hseen hr
+    have hself := EnumDenH.tdQual h1 h2 h3 h4 h5 h6 hsub
     cases fuel with
     | zero => simp [getEnum] at hr
     | succ fuel =>
@@ -278,7 +394,7 @@ theorem getEnum_complete {p : Program} {views : Nat → Option FileView} (hv : A
       | some v =>
         rw [hvj] at hr
         simp only at hr
-        obtain ⟨g, hg, hnd, hn2c, _, htd, _, hincs, _⟩ := (hv j v hvj).ex
+        obtain ⟨g, hg, hnd, hn2c, _, htd, _, hincs, hcl⟩ := (hv j v hvj).ex
         rw [h1] at hg; simp only [Option.some.injEq] at hg; subst hg
         rw [(hn2c td.alias .typedef).mpr (Declares.typedef h2)] at hr
         simp only [reduceCtorEq, if_false, if_true] at hr
@@ -290,6 +406,11 @@ theorem getEnum_complete {p : Program} {views : Nat → Option FileView} (hv : A
           obtain ⟨td', htdm, hal, hrn, href, _⟩ := htd td.alias root ht
           have : td' = td := findTypedef_unique hnd htdm h2 hal
           subst this
+          have hns : (j, td'.alias) ∉ seen := by
+            intro hm
+            have := hseen _ hm _ _ _ hself
+            omega
+          rw [if_neg hns] at hr
           have hrefs : root.ref = some ⟨k, b⟩ :=
             (href k b).mpr (by rw [h3]; exact ⟨n, f, a, j', c, rfl, h4, h1, h5, h6⟩)
           rw [hrefs] at hr
@@ -299,14 +420,30 @@ theorem getEnum_complete {p : Program} {views : Nat → Option FileView} (hv : A
             rw [hincs, List.getElem?_map, r1]; simp [r2]
           rw [hix] at hr
           simp only at hr
-          cases hsub : getEnum views fuel j' b with
-          | error err => rw [hsub] at hr; simp at hr
+          have hview' : ∃ v', views j' = some v' := by
+            rw [← r2]; exact hcl inc (List.mem_of_getElem? r1)
+          cases hsubc : getEnum views fuel ((j, td'.alias) :: seen) j' b with
+          | error err => rw [hsubc] at hr; simp at hr
           | ok res =>
-            rw [hsub] at hr
-            obtain ⟨vals, e1, e2⟩ := ih fuel res hsub
+            rw [hsubc] at hr
+            obtain ⟨vals, e1, e2⟩ := ih hview' fuel _ res (by
+              intro k' hk e' idx' h' hd'
+              rcases List.mem_cons.mp hk with rfl | hk
+              · have := enumDenH_fun hv hself hview hd'
+                omega
+              · have := hseen k' hk e' idx' h' hd'
+                omega) hsubc
             subst e1
             simp only [Except.ok.injEq] at hr
             exact ⟨vals, hr.symm, e2⟩
+
+theorem getEnum_complete {p : Program} {views : Nat → Option FileView} (hv : AllViews p views)
+    {j : Nat} {name : Bytes} {e : Nat × Bytes} {idx : Int} (hd : EnumDen p j name e idx)
+    (hview : ∃ v, views j = some v) (fuel : Nat) (r : Option (List Bytes) × Int)
+    (hr : getEnum views fuel [] j name = .ok r) :
+    ∃ vals, r = (some vals, idx) ∧ EnumVals p e vals := by
+  obtain ⟨h, hh⟩ := enumDen_height hd
+  exact getEnum_complete_h hv hh hview fuel [] r (by intro k hk; simp at hk) hr
 
 end Sem
 
@@ -397,10 +534,10 @@ theorem mem_incConstCands (a v : Bytes) : ∀ (l : List IncInfo) (k0 : Nat) (c :
 
 theorem mem_incEnumCands (views : Nat → Option FileView) (fuel : Nat) (a e v : Bytes) :
     ∀ (l : List IncInfo) (k0 : Nat) (cs : List Cand), incEnumCands views fuel a e v l k0 = .ok cs →
-      (∀ (j : Nat) (ii : IncInfo), l[j]? = some ii → ii.pfx = a → ∃ r, getEnum views fuel ii.target e = .ok r) ∧
+      (∀ (j : Nat) (ii : IncInfo), l[j]? = some ii → ii.pfx = a → ∃ r, getEnum views fuel [] ii.target e = .ok r) ∧
       ∀ c, c ∈ cs ↔
         ∃ (j : Nat) (ii : IncInfo) (vals : List Bytes) (idx : Int), l[j]? = some ii ∧ ii.pfx = a ∧
-          getEnum views fuel ii.target e = .ok (some vals, idx) ∧ v ∈ vals ∧
+          getEnum views fuel [] ii.target e = .ok (some vals, idx) ∧ v ∈ vals ∧
           c = (⟨true, ((k0 + j : Nat) : Int), v, e⟩, some (k0 + j))
   | [], k0, cs => by
     intro h
@@ -411,10 +548,10 @@ theorem mem_incEnumCands (views : Nat → Option FileView) (fuel : Nat) (a e v :
     intro h
     simp only [incEnumCands] at h
     have lift : ∀ (cs' : List Cand), incEnumCands views fuel a e v r (k0 + 1) = .ok cs' →
-        (∀ (j : Nat) (ii : IncInfo), r[j]? = some ii → ii.pfx = a → ∃ r', getEnum views fuel ii.target e = .ok r') ∧
+        (∀ (j : Nat) (ii : IncInfo), r[j]? = some ii → ii.pfx = a → ∃ r', getEnum views fuel [] ii.target e = .ok r') ∧
         ∀ c, c ∈ cs' ↔
           ∃ (j : Nat) (ii : IncInfo) (vals : List Bytes) (idx : Int), (inc :: r)[j + 1]? = some ii ∧ ii.pfx = a ∧
-            getEnum views fuel ii.target e = .ok (some vals, idx) ∧ v ∈ vals ∧
+            getEnum views fuel [] ii.target e = .ok (some vals, idx) ∧ v ∈ vals ∧
             c = (⟨true, ((k0 + (j + 1) : Nat) : Int), v, e⟩, some (k0 + (j + 1))) := by
       intro cs' h'
       obtain ⟨i1, i2⟩ := mem_incEnumCands views fuel a e v r (k0 + 1) cs' h'
@@ -428,7 +565,7 @@ theorem mem_incEnumCands (views : Nat → Option FileView) (fuel : Nat) (a e v :
         exact ⟨j, ii, vals, idx, by simpa using h1, h2, h3, h4, by rw [h5]; congr 2 <;> omega⟩
     by_cases hp : inc.pfx = a
     · rw [if_pos hp] at h
-      cases hg : getEnum views fuel inc.target e with
+      cases hg : getEnum views fuel [] inc.target e with
       | error err => rw [hg] at h; simp at h
       | ok res =>
         obtain ⟨en, idx⟩ := res
